@@ -95,6 +95,19 @@ def rule_r1(facts, col, sites=None):
                                 "called again: the verdict is ignored and the thread never ends", {})
                     else:
                         col.ok("C05.R1", key, body.where(wb), "wait()==true leaves the loop")
+            if not need_wait:
+                # the function the block asked to be run IS run on every way back to work()
+                fcalls = [b for b, t in body.calls() if b in arm_blocks and t["f"].get("name") in ("call", "call_mut", "call_once")
+                          and "ops::Fn" in (t["f"].get("q") or "")]
+                key = key0 + ":f:call"
+                r = reach_avoiding(body, tgt, set(fcalls))
+                if ws.wbb in r or not fcalls:
+                    col.bad("C05.R1", key, body.where(tgt),
+                            "a path from the WaitForFunc arm back to work() does not run the function the block handed over: the block "
+                            "asked the runner to block in that function; without it the thread spins (and the block never sees the event "
+                            "the function waits for)", {})
+                else:
+                    col.ok("C05.R1", key, body.where(tgt), "the wait function is called on every way back to work()")
             key = key0 + ":g:eof"
             r = reach_avoiding(body, tgt, set(eofs))
             if ws.wbb in r or not eofs:
